@@ -309,7 +309,9 @@ def run_inverse(spec, res, f=None, ioapi=None):
             # files of the CAMx readers are IOAPI-class files without the
             # full IOAPI header: the class completes it (defaults) in every
             # result; nothing the source stated is changed by that
-            ioapi and spec['mode'] == 'reader' and d.endswith(' added') and
+            ioapi and (spec['mode'] == 'reader' or
+                       spec['file'].get('via') == 'uamiv') and
+            d.endswith(' added') and
             d.split()[-2] in ('IOAPI_VERSION', 'EXEC_ID', 'NTHIK', 'HISTORY',
                               'UPNAM', 'FILEDESC', 'GDNAM', 'WDATE', 'WTIME',
                               'CDATE', 'CTIME', 'VGTYP', 'VGTOP', 'VGLVLS',
